@@ -44,8 +44,12 @@ def generate(rng, tier, index):
         return {'kind': 'surrogate_multi', 'T': rng.choice([1073.0, 1173.0]), 'n': rng.choice([2, 3]), 'logX': rng.random() < 0.5, 'probe': [round(rng.uniform(0.2, 0.8), 3) for _ in range(2)]}
     if k in (7, 8, 9):
         cfg = DW.gen_config(rng, real_ok=False)
-        cfg['record'] = rng.random() < 0.5
-        return {'kind': 'diffusion', 'cfg': cfg, 'ops': DW.gen_ops(rng), 'ext': rng.random() < 0.5}
+        cfg['record'] = rng.random() < 0.6
+        ops = DW.gen_ops(rng)
+        # recording options may change between solve calls: disableRecording() keeps the history recorded so far
+        if cfg['record'] and rng.random() < 0.45:
+            ops.insert(rng.randint(1, len(ops)), {'op': 'disable_recording'})
+        return {'kind': 'diffusion', 'cfg': cfg, 'ops': ops, 'ext': rng.random() < 0.5}
     rec = W.gen_run_record(rng, real_frac=0.06, real_kinds=('real_alzr',), cap=120)
     rec['kind'] = 'precip'
     rec['cfg']['record_psd'] = rng.random() < 0.5
@@ -164,13 +168,17 @@ def run_precip(rec, F, cnt, sig):
 def run_diffusion(rec, F, cnt, sig):
     cfg0 = rec['cfg']
     dt0 = DW.pilot_dt(cfg0)
-    total = sum(o['k'] for o in rec['ops']) * dt0
+    total = sum(o['k'] for o in rec['ops'] if o['op'] == 'solve') * dt0
     cfg = DW.resolve_schedule(cfg0, total)
     tmp = tempfile.mkdtemp(prefix='ksim_c20_')
     try:
         m, info = DW.build(cfg)
         m.addCouplingModel(DW.CapObserver(300))
         for ci, op in enumerate(rec['ops']):
+            if op['op'] == 'disable_recording':
+                m.disableRecording()
+                sig.add('recording_disabled_midway')
+                continue
             try:
                 m.solve(op['k'] * dt0, solverType=DW.SolverType.EXPLICITEULER if op['it'] == 'euler' else DW.SolverType.RK4)
             except DW.StepCap:
